@@ -1,6 +1,8 @@
 import DadiVerif.Lemmas.PopOpsScramble
 import DadiVerif.Lemmas.PopOpsFold
 import DadiVerif.Lemmas.PopOpsProj
+import DadiVerif.Lemmas.PopOpsFoldPath
+import DadiVerif.Lemmas.PopOpsScrFold
 /-!
 # C10 — population bookkeeping on spectra equals explicit index arithmetic, keeps labels
 
@@ -430,6 +432,144 @@ theorem C10_commute_project_marginalize (k k' m : Nat) (S : FS) (hne : k ≠ k')
   exact proj_sum_comm _ S.shape k k' (m + 1) hne hk hk' S.dat j hj
 
 example : (0 : Nat) ≠ 2 ∧ [1, 2] ∈ boxIdx (([4, 3, 5].set 0 (2 + 1)).eraseIdx 2) ∧ shiftAxis 2 0 = 0 ∧ shiftAxis 0 2 = 1 := by decide
+
+/-! ## projection — the general statements (round 4)
+
+`Obs S T` (Lemmas/PopOpsObs.lean) is observational equality: same shape, same mask on the box, same data at every
+unmasked entry of the box (numpy leaves the data under the mask unspecified).  `Clean S`: no empty axis and no masked entry.
+`AdmSizes ms sh`: one requested size per axis, `ms[k] + 1 ≤ sh[k]` (what `Spectrum.project` checks before it starts).
+`projectCore ms S` is the loop of `Spectrum.project` (axis after axis, skipping axes that keep their size),
+`project` the public function (Model/PopOps.lean, K-tied through the driver op `proj`). -/
+
+/-- T/K tie of the weights: the windowed weight of the model of `_project_one_axis` is the hypergeometric weight
+    C(m,j)·C(n−m,h−j)/C(n,h) with Mathlib's binomials (`hyp` of C08's Lemmas/Hypergeom.lean), exactly 0 outside the window,
+    and every source count is distributed completely (rows sum to 1). -/
+theorem C10_project_weights (n m h : ℕ) (hm : m ≤ n) (hh : h ≤ n) :
+    (∀ j, projW n m h j = hyp m n h j) ∧ ((List.range (m + 1)).map fun j => projW n m h j).sum = 1 :=
+  ⟨fun j => projW_eq_hyp n m h j hm hh, projW_rowsum n m h hm hh⟩
+
+example : (2 : ℕ) ≤ 5 ∧ (3 : ℕ) ≤ 5 := by decide
+
+/-- One-axis projections of different populations commute exactly (all fields), hence the result of the loop of
+    `Spectrum.project` does not depend on the order of the axes. -/
+theorem C10_project_axes_commute (k m k2 m2 : Nat) (S : FS) (hne : k ≠ k2) :
+    projectAxis k m (projectAxis k2 m2 S) = projectAxis k2 m2 (projectAxis k m S) :=
+  projectAxis_comm k m k2 m2 S hne
+
+/-- **(1) marginalize ∘ project = project ∘ marginalize, any number of axes on both sides.**  For a spectrum without masked
+    entries, ANY list `ks` of axes that can be summed one after the other (the code: `sorted(over)[::-1]`) and ANY admissible
+    sizes `ms` — also for the populations that are summed away (their projection is absorbed, rows sum to 1):
+    summing `ks` after the projection loop = the projection loop with the sizes of the remaining axes after summing `ks`.
+    Shape, mask and data. -/
+theorem C10_commute_project_marginalize_all (ks ms : List Nat) (S : FS) (hc : Clean S) (hks : ValidDrops ks S.ndim)
+    (hadm : AdmSizes ms S.shape) :
+    Obs (marginalizeCore ks (projectCore ms S)) (projectCore (dropAxes ks ms) (marginalizeCore ks S)) :=
+  marginalizeCore_projectCore ks ms S hc hks hadm
+
+example : let S := ofArrays [2, 3, 2] #[1, 2, 3, 4, 5, 6, 7, 8, 9, 10, 11, 12] (Array.replicate 12 false) false none
+    Clean S ∧ ValidDrops [2, 0] S.ndim ∧ AdmSizes [1, 1, 0] S.shape ∧ dropAxes [2, 0] [1, 1, 0] = [1] := by
+  refine ⟨⟨by decide, by decide +kernel⟩, ⟨by decide, by decide, trivial⟩, ?_, by decide⟩
+  exact List.Forall₂.cons (by decide) (List.Forall₂.cons (by decide) (List.Forall₂.cons (by decide) List.Forall₂.nil))
+
+/-- …and for the public functions: `fs.project(ns).marginalize(over, mask_corners)` and
+    `fs.marginalize(over, mask_corners).project([ns[k] for k not in over])` both succeed and agree in shape, mask, data at
+    unmasked entries, labels and folding flag — every unfolded spectrum without masked entries, every duplicate-free `over`
+    that leaves a population, all admissible sizes, both settings of `mask_corners`. -/
+theorem C10_commute_project_marginalize_public (over ms : List Nat) (mc : Bool) (S : FS) (hf : S.folded = false) (hc : Clean S)
+    (hn : over.Nodup) (hv : ∀ k ∈ over, k < S.ndim) (hl : over.length < S.ndim) (hadm : AdmSizes ms S.shape) :
+    ∃ A B, (project ms S).bind (marginalize over mc) = some A ∧
+      (marginalize over mc S).bind (project (dropSet over 0 ms)) = some B ∧
+      Obs A B ∧ A.labels = B.labels ∧ A.folded = B.folded :=
+  marginalize_project_public over ms mc S hf hc hn hv hl hadm
+
+example : let S := ofArrays [2, 3, 2] #[1, 2, 3, 4, 5, 6, 7, 8, 9, 10, 11, 12] (Array.replicate 12 false) false (some ["a", "b", "c"])
+    S.folded = false ∧ Clean S ∧ ([0, 2] : List Nat).Nodup ∧ (∀ k ∈ ([0, 2] : List Nat), k < S.ndim) ∧ ([0, 2] : List Nat).length < S.ndim
+    ∧ dropSet [0, 2] 0 [1, 1, 0] = [1] := by
+  refine ⟨rfl, ⟨by decide, by decide +kernel⟩, by decide, by decide, by decide, by decide⟩
+
+/-- **(2) reorder_pops ∘ project = project ∘ reorder_pops** with the sizes permuted like the populations
+    (`[ns[p-1] for p in neworder]`), for ANY mask: shape, mask, data at unmasked entries. -/
+theorem C10_commute_project_reorder (axes ms : List Nat) (S : FS) (hp : axes.Perm (List.range S.ndim))
+    (hadm : AdmSizes ms S.shape) :
+    Obs (reorderCore axes (projectCore ms S)) (projectCore (permIdx 0 axes ms) (reorderCore axes S)) :=
+  reorderCore_projectCore axes ms S hp hadm
+
+theorem C10_commute_project_reorder_public (neworder ms : List Nat) (S : FS) (hf : S.folded = false)
+    (hno : sortAsc neworder = (List.range S.ndim).map (· + 1)) (hadm : AdmSizes ms S.shape) :
+    ∃ A B, (project ms S).bind (reorderPops neworder) = some A ∧
+      (reorderPops neworder S).bind (project (permIdx 0 (neworder.map (· - 1)) ms)) = some B ∧
+      Obs A B ∧ A.labels = B.labels ∧ A.folded = B.folded :=
+  reorder_project_public neworder ms S hf hno hadm
+
+example : let S := ofArrays [2, 3, 4] (Array.replicate 24 1) (Array.replicate 24 false) false (some ["a", "b", "c"])
+    ([2, 0, 1] : List Nat).Perm (List.range S.ndim) ∧ sortAsc [3, 1, 2] = (List.range S.ndim).map (· + 1)
+    ∧ permIdx 0 [2, 0, 1] [1, 1, 2] = [2, 1, 1] := by decide
+
+/-- **(3a) combine_two_pops ∘ project = project ∘ combine_two_pops** when the two merged populations keep their sizes, for ANY
+    mask: the merged axis keeps its full size n_a+n_b and the other requested sizes move with their axes (`merge2 a b ms` is
+    exactly that list); the corners the merge masks are the corners the projection reaches from masked corners. -/
+theorem C10_commute_project_combine_two (a b : Nat) (ms : List Nat) (S : FS) (hab : a < b) (hb : b < S.ndim)
+    (hadm : AdmSizes ms S.shape)
+    (hma : ms.getD a 0 + 1 = S.shape.getD a 0) (hmb : ms.getD b 0 + 1 = S.shape.getD b 0) :
+    Obs (combineTwoCore a b (projectCore ms S)) (projectCore (merge2 a b ms) (combineTwoCore a b S)) :=
+  combineTwoCore_projectCore a b ms S hab hb hadm hma hmb
+
+theorem C10_commute_project_combine_two_public (p q : Nat) (ms : List Nat) (S : FS) (hf : S.folded = false)
+    (hp : 1 ≤ p ∧ p ≤ S.ndim) (hq : 1 ≤ q ∧ q ≤ S.ndim) (hpq : p ≠ q) (hadm : AdmSizes ms S.shape)
+    (hmp : ms.getD (p - 1) 0 + 1 = S.shape.getD (p - 1) 0) (hmq : ms.getD (q - 1) 0 + 1 = S.shape.getD (q - 1) 0) :
+    ∃ A B, (project ms S).bind (combineTwo p q) = some A ∧
+      (combineTwo p q S).bind (project (merge2 (min p q - 1) (max p q - 1) ms)) = some B ∧
+      Obs A B ∧ A.labels = B.labels ∧ A.folded = B.folded :=
+  combineTwo_project_public p q ms S hf hp hq hpq hadm hmp hmq
+
+/-- …and for the iterated merges of `combine_pops` (highest index first, all above the receiving slot `a`): the untouched
+    populations may be projected before or after, the sizes list is transformed by the same `mergeAll`. -/
+theorem C10_commute_project_combine (a : Nat) (rs ms : List Nat) (S : FS) (hd : rs.Pairwise (· > ·))
+    (har : ∀ r ∈ rs, a < r ∧ r < S.ndim) (hadm : AdmSizes ms S.shape)
+    (hma : ms.getD a 0 + 1 = S.shape.getD a 0) (hmr : ∀ r ∈ rs, ms.getD r 0 + 1 = S.shape.getD r 0) :
+    Obs (combineIter a rs (projectCore ms S)) (projectCore (mergeAll a rs ms) (combineIter a rs S)) :=
+  combineIter_projectCore a rs ms S hd har hadm hma hmr
+
+example : let S := ofArrays [2, 3, 2, 3] (Array.replicate 36 1) (Array.replicate 36 false) false none
+    ([3, 2] : List Nat).Pairwise (· > ·) ∧ (∀ r ∈ ([3, 2] : List Nat), 0 < r ∧ r < S.ndim)
+    ∧ ([1, 1, 1, 2] : List Nat).getD 0 0 + 1 = S.shape.getD 0 0
+    ∧ (∀ r ∈ ([3, 2] : List Nat), ([1, 1, 1, 2] : List Nat).getD r 0 + 1 = S.shape.getD r 0)
+    ∧ mergeAll 0 [3, 2] [1, 1, 1, 2] = [4, 1] ∧ merge2 0 2 [1, 1, 1] = [2, 1] := by decide
+
+/-! ## masks (round 4) -/
+
+/-- **the mask of iterated `combine_two_pops`, both directions**: after at least one merge a result cell is masked IF AND ONLY IF
+    some contributor along the ONE re-indexing `mergeAll` is masked or the cell is one of the two corners of the result. -/
+theorem C10_combine_mask (a r : Nat) (rs : List Nat) (S : FS) (j : Idx) :
+    (combineIter a (r :: rs) S).msk j = true ↔
+      ((∃ i ∈ S.box, mergeAll a (r :: rs) i = j ∧ S.msk i = true) ∨ isCorner (mergeAllShape a (r :: rs) S.shape) j = true) := by
+  rw [combineIter_msk, Bool.or_eq_true, anyL_iff]
+
+/-- **the folded path of `marginalize` end to end** (unfold → sum the axes → mask the corners → fold): for an unfolded spectrum
+    without masked entries, `marginalize(over)(fold U)` is observationally `fold(marginalize(over)(U))` — same shape, same mask
+    (= folded-out region ∪ the two corners), same data at every unmasked entry, same labels, folded. -/
+theorem C10_marginalize_folded_path (over : List Nat) (U : FS) (hf : U.folded = false) (hc : Clean U)
+    (hn : over.Nodup) (hv : ∀ k ∈ over, k < U.ndim) (hl : over.length < U.ndim) :
+    ∃ R M, marginalize over true (foldCore U) = some R ∧ marginalize over true U = some M ∧
+      Obs R (foldCore M) ∧ R.labels = (foldCore M).labels ∧ R.folded = true ∧
+      ∀ j ∈ boxIdx R.shape, R.msk j = (foldedOut R.shape j || isCorner R.shape j) :=
+  marginalize_fold_obs over U hf hc hn hv hl
+
+/-- the mask of `unfold(fold U)` for a spectrum without masked entries is exactly the two corners -/
+theorem C10_unfold_fold_mask (U : FS) (hc : Clean U) (i : Idx) (hi : i ∈ U.box) :
+    (unfoldCore (foldCore U)).msk i = isCorner U.shape i := unfold_fold_msk U hc i hi
+
+/-! ## scramble_pop_ids and folding (round 4) -/
+
+/-- **scramble_pop_ids commutes with folding** (data).  `scrDat sh x` is the data of `scrambleCore` (pool by total allele
+    count, re-deal with the multivariate hypergeometric weights); scrambling a folded spectrum — the code unfolds
+    (= symmetrises, `C10_unfold_fold`), scrambles and folds — gives the fold of the scrambled spectrum. -/
+theorem C10_commute_fold_scramble (mc : Bool) (S : FS) (sh : List Nat) (x : Idx → ℚ) (j : Idx) (hj : j ∈ boxIdx sh) :
+    (scrambleCore mc S).dat = scrDat S.shape S.val ∧
+    foldDat sh (scrDat sh (symDat sh x)) j = foldDat sh (scrDat sh x) j :=
+  ⟨rfl, fold_scramble_sym sh x j hj⟩
+
+example : [1, 2] ∈ boxIdx [2, 4] := by decide
 
 /-! ## the two obligations that the generated wiring must meet (they fail while the defect is in the source) -/
 
